@@ -195,3 +195,24 @@ func viaHelpers(p *core.Prog, caller *ssa.Function, pred instrPred) instrPred {
 		return v
 	}
 }
+
+// deferredBodies returns the functions whose bodies run when f returns: the closures f
+// defers and the same-repository functions it defers by name (`defer x.cleanup(...)`).
+func deferredBodies(p *core.Prog, f *ssa.Function) []*ssa.Function {
+	var out []*ssa.Function
+	for _, an := range f.AnonFuncs {
+		if _, mode := closureUse(an); mode == "defer" {
+			out = append(out, an)
+		}
+	}
+	core.Instrs(f, func(in ssa.Instruction) {
+		d, ok := in.(*ssa.Defer)
+		if !ok {
+			return
+		}
+		if h := p.ByObj[core.CalleeObj(d)]; h != nil && h.SSA != nil {
+			out = append(out, h.SSA)
+		}
+	})
+	return out
+}
